@@ -200,13 +200,83 @@ theorem hash_respects_eq (mt : Bool) (hk : Key × ZV d → Nat) (a b : Cluster d
   apply (List.subperm_of_subset ha hab).perm_of_length_le
   rw [keyed_length, keyed_length, hlen]
 
+/-! ### the converse for plain clusters: equal ⇒ geometrically the same -/
+
+theorem keyed_plain (mt : Bool) (a : Cluster d) (hT : a.transition = false) (hV : a.vacancy = false) :
+    a.keyed mt = a.sites.map (a.entry none) := by
+  simp [Cluster.keyed, hT, hV, nfixed]
+
+/-- **plain clusters that compare equal are translates of each other up to the order of the sites**
+    (duplicate-free, non-empty): together with `eqv_of_translate_perm` this is
+    `cluster equality ⇔ same site multiset up to a lattice translation` for plain clusters. -/
+theorem eqv_plain_imp_translate_perm (mt : Bool) (a b : Cluster d)
+    (haT : a.transition = false) (haV : a.vacancy = false)
+    (hnd : (a.keyed mt).Nodup) (hne : a.sites ≠ []) (h : a.eqv mt b = true) :
+    ∃ t : ZV d, b.sites.Perm (a.sites.map fun s => addR s t) := by
+  simp only [Cluster.eqv, Bool.and_eq_true, beq_iff_eq, subsetL, List.all_eq_true, decide_eq_true_eq] at h
+  obtain ⟨⟨⟨⟨⟨hT, hV⟩, hN⟩, hab⟩, hba⟩, _⟩ := h
+  have hbT : b.transition = false := by rw [← hT]; exact haT
+  have hbV : b.vacancy = false := by rw [← hV]; exact haV
+  have hlen : a.sites.length = b.sites.length := by
+    simpa [Cluster.norder, haT, haV, hbT, hbV, nfixed] using hN
+  have hperm : (a.keyed mt).Perm (b.keyed mt) := by
+    apply (List.subperm_of_subset hnd hab).perm_of_length_le
+    rw [keyed_length, keyed_length, hlen]
+  rw [keyed_plain mt a haT haV, keyed_plain mt b hbT hbV] at hperm
+  -- the number of sites, as a non-zero integer
+  have hNpos : 0 < a.sites.length := List.length_pos_iff.mpr hne
+  have hN0 : (a.sites.length : Int) ≠ 0 := by exact_mod_cast hNpos.ne'
+  -- one matched pair of sites gives the translation
+  obtain ⟨s0, hs0⟩ := List.exists_mem_of_ne_nil _ hne
+  have hmem : a.entry none s0 ∈ b.sites.map (b.entry none) :=
+    hperm.subset (List.mem_map.mpr ⟨s0, hs0, rfl⟩)
+  obtain ⟨s', _, hs'⟩ := List.mem_map.mp hmem
+  have hsp : ∀ k, (b.shiftPos s').get k = (a.shiftPos s0).get k := by
+    intro k
+    have := congrArg (fun e : Key × ZV d => e.2.get k) hs'
+    simpa [Cluster.entry] using this
+  let t : ZV d := vof fun k => s'.R.get k - s0.R.get k
+  have hcen : ∀ k, b.center.get k - a.center.get k = (a.sites.length : Int) * t.get k := by
+    intro k
+    have := hsp k
+    simp only [Cluster.shiftPos, get_ofFn, ← hlen] at this
+    simp only [t, get_ofFn]
+    linarith
+  refine ⟨t, ?_⟩
+  -- recover the sites from the map entries
+  let F : Key × ZV d → Site d := fun e =>
+    { c := e.1.c, i := e.1.i, R := vof fun k => (e.2.get k + b.center.get k) / (a.sites.length : Int) }
+  have hFb : ∀ s, F (b.entry none s) = s := by
+    intro s
+    refine Site.ext' rfl rfl ?_
+    intro k
+    simp only [F, Cluster.entry, Cluster.shiftPos, get_ofFn, ← hlen]
+    rw [show s.R.get k * (a.sites.length : Int) - b.center.get k + b.center.get k
+          = s.R.get k * (a.sites.length : Int) by ring]
+    exact Int.mul_ediv_cancel _ hN0
+  have hFa : ∀ s, F (a.entry none s) = addR s t := by
+    intro s
+    refine Site.ext' rfl rfl ?_
+    intro k
+    simp only [F, Cluster.entry, Cluster.shiftPos, get_ofFn, addR]
+    rw [show s.R.get k * (a.sites.length : Int) - a.center.get k + b.center.get k
+          = (s.R.get k + t.get k) * (a.sites.length : Int) by linarith [hcen k]]
+    exact Int.mul_ediv_cancel _ hN0
+  have := hperm.map F
+  simp only [List.map_map] at this
+  have e1 : (F ∘ a.entry none) = fun s => addR s t := funext hFa
+  have e2 : (F ∘ b.entry none) = id := funext hFb
+  rw [e1, e2, List.map_id] at this
+  exact this.symm
+
 /-- C31, identity clause at full strength: for clusters built by the constructor from distinct
     sites, `__eq__` holds exactly when the stored clusters agree up to a lattice translation and a
     permutation of the non-special sites (for a non-vacancy transition cluster also after reversing
     the transition pair).  Proved here: the invariance direction (`eqv_of_translate_perm`,
     `eqv_map_of_translate_perm`, `mk'_translate`, `hash_of_translate_perm`, `hash_respects_eq`);
-    the converse is false for unmarked transition pairs (`ts_eq_not_geometric_witness`) and is
-    otherwise carried by the differential run (model `eqv` vs geometric canonical forms). -/
+    the converse for plain clusters (`eqv_plain_imp_translate_perm`); the converse is false for
+    unmarked transition pairs (`ts_eq_not_geometric_witness`) and for vacancy / marked transition
+    clusters it is carried by the differential run (model `eqv` vs geometric canonical forms). -/
 def cluster_eq_iff_translate_perm_full (mt : Bool) : Prop :=
   ∀ (d : Nat) (l1 l2 : List (Site d)) (T V : Bool), l1.Nodup → l2.Nodup →
     nfixed T V ≤ l1.length → nfixed T V ≤ l2.length →
